@@ -36,6 +36,9 @@ pub enum Op {
     },
     CellRead { c: u8 },
     CellWrite { c: u8 },
+    /// `cell.with_mut(|p| { write; x.store(val, ord); write })` (or `with` / read): the access lasts for the whole
+    /// closure, also after the store another thread may acquire. For the oracles it is expanded into three operations.
+    CellHold { c: u8, write: bool, loc: u8, val: u64, ord: Ord_ },
     /// atomic.with_mut (needs exclusive access: a non-atomic write of the atomic's memory)
     UnsyncLoad { loc: u8 },
 }
@@ -90,18 +93,19 @@ impl Op {
             Op::Fence { ord } => format!("fence({})", ord.s()),
             Op::Await { loc, ord, spin_hint, min, ann } => format!("r=await{}({}{},{}{})", if *spin_hint { "_spin" } else { "" }, l(loc), if *min <= 1 { "!=0".to_string() } else { format!(">={}", min) }, ord.s(), match ann { Some(w) => format!(";else {}.st(1,rlx)", l(w)), None => String::new() }),
             Op::CellRead { c } => format!("c{}.read", c),
+            Op::CellHold { c, write, loc, val, ord } => format!("c{}.{}{{..; {}.st({},{}); ..}}", c, if *write { "with_mut" } else { "with" }, l(loc), val, ord.s()),
             Op::CellWrite { c } => format!("c{}.write", c),
             Op::UnsyncLoad { loc } => format!("r={}.unsync_load", l(loc)),
         }
     }
     pub fn loc(&self) -> Option<u8> {
         match self {
-            Op::Load { loc, .. } | Op::Store { loc, .. } | Op::Swap { loc, .. } | Op::Cas { loc, .. } | Op::FetchAdd { loc, .. } | Op::Await { loc, .. } | Op::UnsyncLoad { loc } => Some(*loc),
+            Op::Load { loc, .. } | Op::Store { loc, .. } | Op::Swap { loc, .. } | Op::Cas { loc, .. } | Op::FetchAdd { loc, .. } | Op::Await { loc, .. } | Op::UnsyncLoad { loc } | Op::CellHold { loc, .. } => Some(*loc),
             _ => None,
         }
     }
     pub fn is_write(&self) -> bool {
-        matches!(self, Op::Store { .. } | Op::Swap { .. } | Op::Cas { .. } | Op::FetchAdd { .. })
+        matches!(self, Op::Store { .. } | Op::Swap { .. } | Op::Cas { .. } | Op::FetchAdd { .. } | Op::CellHold { .. })
     }
     pub fn returns(&self) -> bool {
         matches!(self, Op::Load { .. } | Op::Swap { .. } | Op::Cas { .. } | Op::FetchAdd { .. } | Op::Await { .. })
@@ -112,6 +116,24 @@ impl Op {
 }
 
 impl Prog {
+    /// The program the oracles see: an access that lasts for a whole closure is an access before and one after what the
+    /// closure does in between.
+    pub fn expanded(&self) -> Prog {
+        let ex = |ops: &Vec<Op>| -> Vec<Op> {
+            let mut v = Vec::new();
+            for o in ops {
+                if let Op::CellHold { c, write, loc, val, ord } = *o {
+                    let acc = if write { Op::CellWrite { c } } else { Op::CellRead { c } };
+                    v.extend([acc, Op::Store { loc, val, ord }, acc]);
+                } else {
+                    v.push(*o);
+                }
+            }
+            v
+        };
+        Prog { nlocs: self.nlocs, pre: ex(&self.pre), threads: self.threads.iter().map(ex).collect() }
+    }
+
     pub fn s(&self) -> String {
         let th = |t: &Vec<Op>| t.iter().map(|o| o.s()).collect::<Vec<_>>().join("; ");
         let body = self.threads.iter().map(th).collect::<Vec<_>>().join("  ||  ");
@@ -462,6 +484,22 @@ fn exec(ops: &[Op], tid: u8, base_pc: u8, sh: &Shared, log: &Mutex<IterLog>) -> 
             }
             Op::CellWrite { c } => {
                 sh.cells.0[c as usize].with_mut(|p| unsafe { std::ptr::write_volatile(p, 1) });
+                u64::MAX
+            }
+            Op::CellHold { c, write, loc, val, ord } => {
+                if write {
+                    sh.cells.0[c as usize].with_mut(|p| unsafe {
+                        std::ptr::write_volatile(p, 1);
+                        sh.locs[loc as usize].store(val, ord.std());
+                        std::ptr::write_volatile(p, 2);
+                    });
+                } else {
+                    sh.cells.0[c as usize].with(|p| unsafe {
+                        std::ptr::read_volatile(p);
+                        sh.locs[loc as usize].store(val, ord.std());
+                        std::ptr::read_volatile(p);
+                    });
+                }
                 u64::MAX
             }
             Op::UnsyncLoad { loc } => {
